@@ -36,8 +36,8 @@ def setup():
 
 
 KINDS = [('-I', ''), ('-L', ''), ('-D', ''), ('-U', ''), ('-isystem', ''), ('-l', ''), ('-Wl,-rpath,', ''), ('-f', ''),
-         ('lib', '.a'), ('/x/lib', '.so'), ('-D', '.so'), ('-I', '.a')]
-EXACT = ['-pthread', '-I', '-D', '-c']
+         ('lib', '.a'), ('/x/lib', '.so'), ('-D', '.so'), ('-I', '.a'), ('-Wl,-rpath-link,', ''), ('-Wl,-rpath', ''), ('-Wl,-rpath-link', ''), ('-Wl,-l', '')]
+EXACT = ['-pthread', '-I', '-D', '-c', '-Wl,-rpath-link', '-Wl,-rpath', '-Wl,-rpath,', '-l', '-Wl,--export-dynamic', '-isystem']      # bare option words whose value is the NEXT argument are never de-duplicated
 SMALL = [0, 2, 5, 7, 10]      # kinds used in the longer sequences: -I -D -l -f -D*.so
 
 
@@ -217,7 +217,7 @@ def obligations(tier):
     out = [Obligation('classify', ob_classify(), dict(kinds=len(KINDS) + len(EXACT)), labels=('plain', 'ovr', 'unq'))]
     allk = list(range(len(KINDS) + len(EXACT)))
     out.append(Obligation('sequence[1,all kinds]', ob_sequence(1, None), dict(ops=1, kinds='all'), labels=('end',)))
-    out.append(Obligation('sequence[2,all kinds]', ob_sequence(2, [0, 1, 2, 4, 5, 8, 10, 11, 12, 13]), dict(ops=2, kinds='-I -L -D -isystem -l lib.a -D*.so -I*.a -pthread -I'), labels=('end', 'read', 'copy', 'add'), max_paths=3000000))
+    out.append(Obligation('sequence[2,all kinds]', ob_sequence(2, [0, 1, 2, 4, 5, 8, 10, 11, 16, 17]), dict(ops=2, kinds='-I -L -D -isystem -l lib.a -D*.so -I*.a -pthread -I'), labels=('end', 'read', 'copy', 'add'), max_paths=3000000))
     for n in ((3,) if q else (3, 4)):
         ks = SMALL if n == 3 else [0, 2, 5]
         out.append(Obligation('sequence[%d]' % n, ob_sequence(n, ks), dict(ops=n, kinds=[KINDS[k][0] + '?' + KINDS[k][1] for k in ks]), labels=('end', 'read', 'copy', 'add'), max_paths=6000000))
